@@ -46,7 +46,9 @@ def Phase (o : Obs) : WPc → Prop
 structure Env (o : Obs) : Prop where
   hello0 : o.live = true → o.helloSeen = false → o.arrivedCur = []
   hello1 : o.live = true → o.helloSeen = true → ∃ h, h.kind = .hello ∧ o.arrivedCur = h :: o.foc
-  notLive : o.live = false → o.npc = .idle ∧ o.ps = .init ∧ o.Q = []
+  /-- no connection: the network thread is idle, or still inside the flush loop in which a re-entrant disconnect was
+      issued (it will find the fresh queue empty and leave) -/
+  notLive : o.live = false → (o.npc = .idle ∨ o.npc = .inFlush) ∧ o.ps = .init ∧ o.Q = []
   netFlush : o.npc = .wantFlush ∨ o.npc = .inFlush → o.ps ≠ .handshake
   pfx : o.fuc <+: o.foc
   nr : o.good = true → o.noRaise = true
@@ -77,7 +79,7 @@ theorem foc_eq_filter (o : Obs) : o.foc = o.arrivedCur.filter (fun sg => sg.kind
 theorem Phase_npc (o : Obs) (n : NPc) (pc : WPc) : Phase { o with npc := n } pc ↔ Phase o pc := by
   cases pc <;> exact Iff.rfl
 
-theorem Env_npc (o : Obs) (n : NPc) (h : Env o) (h1 : o.live = false → n = .idle)
+theorem Env_npc (o : Obs) (n : NPc) (h : Env o) (h1 : o.live = false → n = .idle ∨ n = .inFlush)
     (h2 : n = .wantFlush ∨ n = .inFlush → o.ps ≠ .handshake) : Env { o with npc := n } :=
   { hello0 := h.hello0, hello1 := h.hello1, notLive := fun hl => ⟨h1 hl, (h.notLive hl).2⟩, netFlush := h2,
     pfx := h.pfx, nr := h.nr, upb := h.upb, arb := h.arb, lc := h.lc }
@@ -321,7 +323,7 @@ theorem Phase_error (o : Obs) (q : List Seg) (hps : o.ps = .transport) (hb : o.g
 
 /-! #### connect / disconnect -/
 
-theorem Env_connect (o : Obs) (h : Env o) (hl : o.live = false) :
+theorem Env_connect (o : Obs) (h : Env o) (hl : o.live = false) (hi : o.npc = .idle) :
     Env { o with conn := o.conn + 1, live := true, helloSeen := false, ps := .handshake, key := none } ∧
     Phase { o with conn := o.conn + 1, live := true, helloSeen := false, ps := .handshake, key := none } .reading := by
   have hac : arrivedCur { o with conn := o.conn + 1, live := true, helloSeen := false, ps := .handshake, key := none } = [] := by
@@ -341,18 +343,16 @@ theorem Env_connect (o : Obs) (h : Env o) (hl : o.live = false) :
             netFlush := ?_, pfx := ?_, nr := h.nr, upb := ?_, arb := ?_, lc := fun _ => Nat.le_add_left _ _ }, rfl, ?_, hfuc⟩
   · intro hx
     have hx' : o.npc = .wantFlush ∨ o.npc = .inFlush := hx
-    rw [hn.1] at hx'; simp at hx'
+    rw [hi] at hx'; simp at hx'
   · rw [hfuc]; exact List.nil_prefix
   · intro x hx; exact Nat.le_succ_of_le (h.upb x hx)
   · intro x hx; exact Nat.le_succ_of_le (h.arb x hx)
   · rw [hac]; exact hn.2.2
 
-theorem Env_disconnect (o : Obs) (h : Env o) (hi : o.npc = .idle) :
+theorem Env_disconnect (o : Obs) (h : Env o) (hi : o.npc = .idle ∨ o.npc = .inFlush) :
     Env { o with live := false, ps := .init, key := none, Q := [] } :=
   { hello0 := fun hn => (by cases hn), hello1 := fun hn => (by cases hn), notLive := fun _ => ⟨hi, rfl, rfl⟩,
-    netFlush := fun hx => (by
-      have hx' : o.npc = .wantFlush ∨ o.npc = .inFlush := hx
-      rw [hi] at hx'; simp at hx'),
+    netFlush := fun _ => (by show PState.init ≠ .handshake; simp),
     pfx := h.pfx, nr := h.nr, upb := h.upb, arb := h.arb, lc := fun hn => (by cases hn) }
 
 /-! #### the current worker's own steps -/
